@@ -1,0 +1,13 @@
+//go:build verif
+
+package db
+
+// VerifClose closes the underlying database handle (the verification harness
+// creates thousands of short-lived teamservers in one process; built only with
+// `-tags verif`).
+func (d *DB) VerifClose() error {
+	if d == nil || d.db == nil {
+		return nil
+	}
+	return d.db.Close()
+}
